@@ -902,12 +902,12 @@ class TypedGen:
 			# floats of the subset are small dyadic rationals: doubling and truncating is exact in both languages
 			self.emit(f'{ind}obs = clamp(obs * 3 + int(({n}) * 2.0) + (1 if {n} > 1.25 else 0))')
 		elif t == ('list', INT):
-			self.emit(f'{ind}for oq in {n}:')
-			self.emit(f'{ind}\tobs = clamp(obs * 3 + oq)')
+			self.emit(f'{ind}for obs_q in {n}:')
+			self.emit(f'{ind}\tobs = clamp(obs * 3 + obs_q)')
 			self.emit(f'{ind}obs = clamp(obs + len({n}))')
 		elif t == ('dict', STR, INT):
-			self.emit(f'{ind}for ok, ov in {n}.items():')
-			self.emit(f'{ind}\tobs = clamp(obs + ov + len(ok))')
+			self.emit(f'{ind}for obs_k, obs_v in {n}.items():')
+			self.emit(f'{ind}\tobs = clamp(obs + obs_v + len(obs_k))')
 		elif t[0] == 'cls' and t[1] in self.classes:
 			for fn, ft in self.classes[t[1]].all_fields(self.classes):
 				if ft == INT:
